@@ -412,7 +412,7 @@ def raw_write_extents(F, S):
             seen.add((fn.key, c["id"]))
             n_sites += 1
             pt = fn.term(a[0])
-            nt = fn.term(a[1])
+            nt = fn.xterm(a[1])
             inst = "%s:%s#extent:%s,%s" % (name, fn.name, fmt_term(pt), fmt_term(nt))
             req = "the byte count %s does not exceed the extent of %s" % (fmt_term(nt), fmt_term(pt))
             site = fn.loc(c["id"])
